@@ -16,6 +16,10 @@ def Alias.text : Alias → String
   | .named s => s
   | .sub k => "subsel_" ++ toString k
 
+/-- one argument of a ClickHouse JSON path (`JSONType(doc, 'a', 1, …)`): an object key or an array position (from 1) -/
+inductive JArg | key (k : Bytes) | idx (i : Int)
+deriving DecidableEq, Repr
+
 mutual
 inductive Expr where
   | raw (s : String)                        -- RawObject: column references, table names, constants
@@ -51,6 +55,11 @@ inductive Expr where
   | topkSlice (isTop hasLabels : Bool) (k : Nat)  -- TopKPlanner: `arraySlice(arraySort([λ,]groupArray((par_a.value, par_a.fingerprint[, par_a.labels]))), 1, k)`
   | arrayJoinFrom (src arr : Expr)          -- FROM `src array JOIN arr ` (Join of type "array": no ON, trailing blank)
   | fixedLit (units scale : Nat)            -- a FloatVal/`%f` literal whose value is units / 10^scale (scale ≤ 6), printed with six decimals
+  -- ---- added for the SQL-side LogQL pipeline stages (C07: json with parameters, regexp, drop); additive
+  | jsonMap (ps : List (Bytes × List JArg))                 -- sqlJsonParser over column `string`: `mapFromArrays(['l',…], [if(JSONType(string, path)…),…])`
+  | regexMap (labels : List Bytes) (re : Bytes) (id : Nat)  -- regexMap over column `string` (`re_lbls_<id>`, `re_vals_<id>`)
+  | mapDrop (m : Expr) (ps : List (Bytes × Bytes))          -- mapDropFilter: `mapFilter((k,v) -> k!='a' and (k, v)!=('b', 'c'), m)`
+  | labelsFp                                                -- `cityHash64(arraySort(arrayZip(mapKeys(labels),mapValues(labels))))` (ParserPlanner, PlannerDrop)
 inductive Sel where
   | mk (withs : List (Alias × Sel)) (distinct : Bool) (cols : List Expr) (from_ : Option Expr)
        (joins : List (String × Alias × Expr)) (preWhere wher : Option Expr) (groupBy : List Expr)
@@ -76,6 +85,33 @@ def fixedText (units scale : Nat) : String :=
 def tsLabelsText : String :=
   "mapFromArrays(arrayMap(x -> x.1, JSONExtractKeysAndValues(time_series.labels, 'String') as rawlbls), " ++
   "arrayMap(x -> x.2, rawlbls))"
+
+def labelsFpText : String := "cityHash64(arraySort(arrayZip(mapKeys(labels),mapValues(labels))))"
+
+def jargText : JArg → Bytes
+  | .key k => quote k
+  | .idx i => intText i
+
+/-- `sqlJsonParser.path2Sql` (after the `fix:`): every call is given the whole path -/
+def jsonGetText (path : List JArg) : Bytes :=
+  let p := joinB (b ",") (path.map jargText)
+  b "if(JSONType(string, " ++ p ++ b ") == 'String', JSONExtractString(string, " ++ p ++ b "), JSONExtractRaw(string, " ++ p ++ b "))"
+
+/-- `sqlJsonParser.String` -/
+def jsonMapText (ps : List (Bytes × List JArg)) : Bytes :=
+  b "mapFromArrays([" ++ joinB (b ",") (ps.map (fun p => quote p.1)) ++ b "], [" ++
+    joinB (b ",") (ps.map (fun p => jsonGetText p.2)) ++ b "])"
+
+/-- `regexMap.String` -/
+def regexMapText (labels : List Bytes) (re : Bytes) (id : Nat) : Bytes :=
+  b "mapFromArrays(arrayFilter( (x,y) -> x != '' AND y != '',  [" ++ joinB (b ",") (labels.map quote) ++
+    b "] as re_lbls_" ++ natDigits id ++ b ",  arrayMap(x -> x[length(x)], extractAllGroupsHorizontal(string, " ++ quote re ++
+    b ")) as re_vals_" ++ natDigits id ++ b "),arrayFilter((x,y) -> x != '' AND y != '', re_vals_" ++ natDigits id ++
+    b ", re_lbls_" ++ natDigits id ++ b "))"
+
+/-- one clause of `mapDropFilter.genFilterFn` -/
+def dropClauseText (p : Bytes × Bytes) : Bytes :=
+  if p.2.isEmpty then b "k!=" ++ quote p.1 else b "(k, v)!=(" ++ quote p.1 ++ b ", " ++ quote p.2 ++ b ")"
 
 mutual
 def renderExpr : Expr → Bytes
@@ -116,6 +152,10 @@ def renderExpr : Expr → Bytes
       natDigits k ++ b ")"
   | .arrayJoinFrom src arr => renderExpr src ++ b " array JOIN " ++ renderExpr arr ++ b " "
   | .fixedLit units scale => b (fixedText units scale)
+  | .jsonMap ps => jsonMapText ps
+  | .regexMap labels re id => regexMapText labels re id
+  | .mapDrop m ps => b "mapFilter((k,v) -> " ++ joinB (b " and ") (ps.map dropClauseText) ++ b ", " ++ renderExpr m ++ b ")"
+  | .labelsFp => b labelsFpText
 def renderExprs : List Expr → List Bytes
   | [] => []
   | o :: os => renderExpr o :: renderExprs os
